@@ -398,17 +398,14 @@ def ordering_rules(ctx):
 
 
 def sever_rule(ctx):
+    """sever(): on every normal path, every severable member and both integrated pseudo members are popped from the tagged envelope
+    map; manifest and wrapper never.  Decided on the evaluator's effects (loop / comprehension / unrolled form alike)."""
     R = ctx.report
     repo = ctx.repo
     S = ctx.schema
     R.rule("C07-D4 severed members", 3, "sever() strips every severable member and the integrated payload/dependency pseudo members, never manifest or wrapper")
     fi = repo.func("suit_generator.envelope", "SuitEnvelope.sever")
     fq = ctx.fq(fi)
-    lists = [n for n in ast.walk(fi.node) if isinstance(n, (ast.List, ast.Tuple, ast.Set)) and n.elts
-             and all(isinstance(e, ast.Constant) and isinstance(e.value, str) for e in n.elts)]
-    if len(lists) != 1:
-        raise AnalysisError(f"{fq}: severable name list not recognised")
-    names = {e.value for e in lists[0].elts}
     env = repo.cls("suit_generator.suit.envelope", "SuitEnvelope")
     mi = S.metadata_of(env)
     man = repo.cls("suit_generator.suit.manifest", "SuitManifest")
@@ -427,15 +424,66 @@ def sever_rule(ctx):
     keep = {"suit-manifest", "suit-authentication-wrapper"}
     if len(sev & env_names) < 5:
         raise AnalysisError(f"severable members not derived from the schema: {sorted(sev)}")
+    MAP = App("idx", (App("attr:_envelope", (P("self"),)), Const("SUIT_Envelope_Tagged")))
+    ev = Evaluator(repo, inline_depth=0)
+    rets = [o for o in ev.outcomes(fi) if o.kind == "return"]
+    if not rets:
+        raise AnalysisError(f"{fq}: no normal outcome")
+
+    def popped_names(effects, guard_names=None):
+        """names removed from MAP by this effect list; None = a removal whose key set is not a constant"""
+        out = set()
+        for e in effects:
+            if not isinstance(e, App):
+                continue
+            if e.op == "eff:loop":
+                it, body = e.args[0], list(e.args[1].args)
+                sel = None
+                for b in body:
+                    if isinstance(b, App) and b.op == "eff:assume" and isinstance(b.args[0], App) and b.args[0].op == "in" \
+                            and isinstance(b.args[0].args[0], App) and b.args[0].args[0].op == "elem" and isinstance(b.args[0].args[1], Const):
+                        sel = set(b.args[0].args[1].v)
+                inner = popped_names(body, sel)
+                if inner is None:
+                    return None
+                out |= inner
+            elif e.op == "eff:if":
+                a1, a2 = popped_names(e.args[1].args, guard_names), popped_names(e.args[2].args, guard_names)
+                if a1 is None or a2 is None:
+                    return None
+                # guarded by membership in a constant list: the then-branch removes exactly those names
+                g = e.args[0]
+                if isinstance(g, App) and g.op == "in" and isinstance(g.args[1], Const) and isinstance(g.args[0], App) and g.args[0].op == "elem":
+                    a1 = popped_names(e.args[1].args, set(g.args[1].v))
+                    out |= (a1 or set())
+                else:
+                    out |= (a1 & a2)  # only what both branches remove is removed on every path
+            elif e.op in ("eff:call", "eff:delitem"):
+                c = e.args[0] if e.op == "eff:call" else e
+                if isinstance(c, App) and c.op in ("meth:pop", "eff:delitem") and c.args and c.args[0] == MAP:
+                    k = c.args[1]
+                    if isinstance(k, Const):
+                        out.add(k.v)
+                    elif isinstance(k, App) and k.op == "elem" and guard_names is not None:
+                        out |= set(guard_names)
+                    else:
+                        return None
+        return out
+    worst = None
+    for o in rets:
+        names = popped_names(o.effects)
+        if names is None:
+            raise AnalysisError(f"{fq}: a removal from the envelope map has a non-constant key set (unrecognised form)")
+        worst = names if worst is None else (worst & names)
+    names = worst
     for n in sorted(must):
-        R.check("C07-D4 severed members", n in names, n, mod=fi.module, node=lists[0], function=fq,
-                expected=f"{n!r} is stripped before the envelope is stored", found="not in sever()'s list", key_extra=n)
-    R.check("C07-D4 severed members", not (names & keep), "manifest and authentication wrapper are kept", mod=fi.module, node=lists[0],
-            function=fq, expected="never stripped", found=f"{sorted(names & keep)}")
-    R.check("C07-D4 severed members", names <= env_names, "every listed name is an envelope member", mod=fi.module, node=lists[0], function=fq,
-            expected="names of envelope members", found=f"{sorted(names - env_names)}")
-    # the pop is applied to the tagged envelope map for exactly the listed keys
-    src = ast.unparse(fi.node)
-    R.check("C07-D4 severed members", "self._envelope['SUIT_Envelope_Tagged'].pop(k, None)" in src and "if k in severable" in src,
-            "exactly the listed members are removed from the envelope map", mod=fi.module, node=fi.node, function=fq,
-            expected="pop(k) for k in keys if k in severable", found="shape not recognised")
+        R.check("C07-D4 severed members", n in names, n, mod=fi.module, node=fi.node, function=fq,
+                expected=f"{n!r} is stripped on every normal path before the envelope is stored",
+                found="not removed on some path (early return or missing from the list)", key_extra=n)
+    all_names = set()
+    for o in rets:
+        all_names |= popped_names(o.effects) or set()
+    R.check("C07-D4 severed members", not (all_names & keep), "manifest and authentication wrapper are kept", mod=fi.module, node=fi.node,
+            function=fq, expected="never stripped", found=f"{sorted(all_names & keep)}")
+    R.check("C07-D4 severed members", all_names <= env_names, "every removed name is an envelope member", mod=fi.module, node=fi.node, function=fq,
+            expected="names of envelope members", found=f"{sorted(all_names - env_names)}")
